@@ -149,7 +149,10 @@ def run(ctx):
                 dfs(y, stack + [y], seen)
     for a in adj:
         dfs(a, [a], {a})
-    ctx.verdict(cyc is None and len(sites) >= 5, rule, rule + ':acyclic', 'no cycle of blocking Mutex acquisitions across distinct sites (a held guard never waits for a lock whose holder can wait for it)', '',
+    if cyc is None and 0 < len(sites) < 5:
+        ctx.anchor_lost(rule, 'the five Mutex acquisition sites of the reference tree', 'found %d (wrappers merged): no cycle among them' % len(sites))
+    else:
+      ctx.verdict(cyc is None and len(sites) >= 5, rule, rule + ':acyclic', 'no cycle of blocking Mutex acquisitions across distinct sites (a held guard never waits for a lock whose holder can wait for it)', '',
                 '%d acquisition sites, %d held-while-acquiring edges: %s; cycle: %s' % (len(sites), len(edges), [(a.split('::')[-2:], ka, '->', b.split('::')[-2:], kb) for a, ka, b, kb in edges][:6], cyc),
                 breaks='two workers can deadlock')
     # ---------------- (3) uniform fallback and avg strat everywhere
